@@ -6,17 +6,17 @@ import os
 HERE = os.path.dirname(os.path.dirname(os.path.abspath(__file__)))
 
 CLAIMED = {
-    "C01": ("4 (C01)", "shared SurfaceMesh queried by interleaved clients, cache drops, reordered + fresh-instance re-runs; oracle RefSurface (brute force over the face list)"),
-    "C02": ("4 (C02)", "build / re-wrap / re-build / observe histories of one raw spec through every constructor path and container flavour, completion switches flipped by a co-resident client; oracle RefNormalise"),
-    "C03": ("4 (C03)", "shared VolumeMesh queried by interleaved clients incl. boundary extraction, cache drops, reordered + fresh-instance re-runs; oracle RefVolume (brute force over the cell list)"),
-    "C04": ("4 (C04)", "save / load / cross-read / cross-write histories over a simulated file system (SimFS) across 7 formats, interleaved attribute-adding queries, export switches flipped, benign lexical perturbations of independently written files; oracle: snapshot at save time + independent reference codecs"),
-    "C05": ("4 (C05)", "stateful histories on containers with twin sparse/dense attributes, rejected operations injected anywhere; oracle RefAttr + sparse-vs-dense lock-step"),
-    "C06": ("4 (C06)", "pool of meshes from every producer, clients interleaving copy/merge/transform/edit calls, every mesh compared with an independent float64 model after every call"),
-    "C11": ("4 (C11)", "tree construction under a simulator-owned PRNG (per-call reseed or shared stream with a noise client; fair-adversarial forced pivots) and a deterministic step budget on sys.monitoring (bounded liveness), then query clients sharing the tree; oracle: brute-force k-NN / radius and the leaf partition"),
-    "C12": ("4 (C12)", "pools of caller-owned arrays and of boxes built on them; box / primitive clients interleaved with an environment client that owns numpy's error mode and a rejector issuing calls that must raise; oracles: RefAABB, exact-rational laws, bitwise snapshots of every caller array, np.geterr()"),
-    "C13": ("4 (C13)", "editing-block histories (cold or warm caches, open block, seeded operation sequence, close, observers on result and passed-in object, second block); oracles: documented counts, topology, area/volume, vertex placement, RefSurface/RefVolume on the result"),
-    "C19": ("4 (C19)", "sampler clients drawing from the simulator-owned global PRNG interleaved with a noise client (arbitrary stream positions), Bezier client and rejector; oracles: domain containment, exact counts, seeded chi-square on shares at p=1e-12, Bernstein form"),
-    "C20": ("4 (C20)", "stateful histories on one shared UnionFind and PriorityQueue by several clients, rejected operations injected; oracles RefUF / RefPQ"),
+    "C01": ("4 (C01)", "shared SurfaceMesh (list / tuple / numpy rows) queried by interleaved clients, cache drops with or without a switch of the sorting mode, failing queries, another surface used in between, background library calls, reordered + fresh-instance re-runs; oracle RefSurface (brute force over the face list); faces-level world shrinking"),
+    "C02": ("4 (C02)", "build / re-wrap (also with appended edges) / re-build / observe histories of one raw spec through every constructor path (raw containers, arrays, obj / medit / tet files incl. rewritten paths and relative-index files) and container flavour, failed first attempts, completion switches flipped by a co-resident client; oracle RefNormalise"),
+    "C03": ("4 (C03)", "shared VolumeMesh (any row flavour, absolute scale, declared border triangles) queried by interleaved clients incl. both boundary extractors, a second volume, background library calls, cache drops with or without a switch of the sorting mode, reordered + fresh-instance re-runs; oracle RefVolume (brute force over the cell list); cell-level world shrinking"),
+    "C04": ("4 (C04)", "save / load / cross-read / cross-write / edit-and-save-again histories over a simulated file system (SimFS) across 7 formats, interleaved attribute-adding queries, export switches flipped, lexical perturbations and dialect variants of independently written files, overwritten paths, raw loads; oracle: snapshot at save time + independent reference codecs"),
+    "C05": ("4 (C05)", "stateful histories on containers with twin sparse/dense attributes (create / re-create / set / in-place update / copy entry / grow / clear / export), appended containers kept alive, rejected operations injected anywhere; oracle RefAttr + sparse-vs-dense lock-step"),
+    "C06": ("4 (C06)", "pool of meshes from every producer (incl. hexahedra, clouds, loaded files, boundaries, subdivisions), clients interleaving copy / merge / transform / in-place edit / attribute edit calls, rejected calls; every mesh (coordinates, elements, corner tables, attributes) compared with an independent float64 model after every call"),
+    "C11": ("4 (C11)", "tree construction under a simulator-owned PRNG (per-call reseed or shared stream with a noise client; fair-adversarial forced pivots) and a deterministic step budget on sys.monitoring (bounded liveness), then query clients sharing the tree (fresh points or one caller-owned buffer), rebuilds, a second tree on another cloud in between; oracle: brute-force k-NN / radius and the leaf partition"),
+    "C12": ("4 (C12)", "pools of caller-owned arrays (overwritten in place by the caller) and of boxes built on them; box / primitive clients interleaved with an environment client that owns numpy's error mode and a rejector issuing calls that must raise; oracles: RefAABB, exact-rational laws, bitwise snapshots of every caller array, np.geterr()"),
+    "C13": ("4 (C13)", "editing-block histories (cold or warm caches, open block - also verbose -, seeded operation sequence, failing operation leaving the block, close, observers on result and passed-in object incl. boundary data carried over, second block, another mesh edited in between); oracles: documented counts, topology, area/volume, vertex placement, RefSurface/RefVolume on the result"),
+    "C19": ("4 (C19)", "sampler clients drawing from the simulator-owned global PRNG interleaved with a noise client (arbitrary stream positions), Bezier client (control points replaced, returned values edited by the caller) and rejector; boxes moved by the caller; oracles: domain containment, exact counts, seeded chi-square on shares (large draws or many small ones) at p=1e-12, Bernstein form"),
+    "C20": ("4 (C20)", "stateful histories on one shared UnionFind and PriorityQueue by several clients, rejected operations injected, other instances and the caller's own constructor list used in between, handed-out items kept; oracles RefUF / RefPQ (multiset)"),
 }
 
 NOT_APPLICABLE = {
